@@ -49,6 +49,14 @@ Theorem C19_scan_tokenizers : forall inside text,
   Forall (fun tk => t_text tk <> [] /\ forallb inside (t_text tk) = true) (scan_tokenizer inside text).
 Proof. exact scan_tokenizer_ok. Qed.
 
+(* the regex tokenizer: successive non-empty leftmost matches, each searched from the end of the
+   previous one; the stream ends at the first failed search or the first empty match *)
+Theorem C19_regex_tokens_are_matches :
+  forall (re_find : list cp -> option (N * N)),
+  (forall s a b, re_find s = Some (a, b) -> exists m, points_at s a b m) ->
+  forall text ts, regex_tokenizer re_find text = Some ts -> regex_chain re_find [] text ts.
+Proof. exact regex_tokenizer_chain. Qed.
+
 (* n-grams: exactly the code-point n-grams with min <= length <= max, each with its byte offsets *)
 Theorem C19_ngram : forall min max text tk, (0 < min)%nat ->
   In tk (ngram_spec min max false text) <->
